@@ -47,7 +47,7 @@ func genPkgContents(r *rng.R, t *SrcTree) []wire.Content {
 	}
 	n := 1 + r.Intn(6)
 	for i := 0; i < n; i++ {
-		switch r.Intn(12) {
+		switch r.Intn(14) {
 		case 0, 1, 2:
 			cs = append(cs, wire.Content{Src: rng.Pick(r, t.Files), Dst: fmt.Sprintf("/usr/bin/f%d", i), Type: rng.Pick(r, []string{"", "file"}), Info: fi(), Packager: tag()})
 		case 3:
@@ -55,7 +55,9 @@ func genPkgContents(r *rng.R, t *SrcTree) []wire.Content {
 		case 4:
 			cs = append(cs, wire.Content{Src: filepath.Join(t.Root, "etc/app.conf"), Dst: fmt.Sprintf("/etc/app/c%d.conf", i), Type: rng.Pick(r, []string{"config", "config|noreplace", "config|missingok"}), Info: fi(), Packager: tag()})
 		case 5:
-			cs = append(cs, wire.Content{Src: rng.Pick(r, []string{filepath.Join(t.Root, "etc/conf.d/*.conf"), filepath.Join(t.Root, "etc/conf.d"), filepath.Join(t.Root, "etc/**/*.conf")}),
+			cs = append(cs, wire.Content{Src: rng.Pick(r, []string{filepath.Join(t.Root, "etc/conf.d/*.conf"), filepath.Join(t.Root, "etc/conf.d"), filepath.Join(t.Root, "etc/**/*.conf"),
+				// sibling directories one of whose names is a string prefix of the other: the common prefix of the matches is a directory
+				filepath.Join(t.Root, "lib*/*.so"), filepath.Join(t.Root, "lib*")}),
 				Dst: fmt.Sprintf("/etc/app/g%d", i), Type: rng.Pick(r, []string{"config", "file", "config|noreplace"}), Info: fi(), Packager: tag()})
 		case 6:
 			cs = append(cs, wire.Content{Dst: fmt.Sprintf("/var/lib/app/d%d", i), Type: "dir", Info: fi(), Packager: tag()})
@@ -65,6 +67,18 @@ func genPkgContents(r *rng.R, t *SrcTree) []wire.Content {
 			cs = append(cs, wire.Content{Src: rng.Pick(r, []string{filepath.Join(t.Root, "tree"), filepath.Join(t.Root, "tree/sub")}), Dst: fmt.Sprintf("/usr/share/app/t%d", i), Type: "tree", Info: fi(), Packager: tag()})
 		case 9:
 			cs = append(cs, wire.Content{Dst: fmt.Sprintf("/var/log/app%d.log", i), Type: "ghost", Info: fi()})
+		case 12:
+			// names that begin with a dot directly under the root and deeper
+			switch r.Intn(4) {
+			case 0:
+				cs = append(cs, wire.Content{Src: rng.Pick(r, t.Files), Dst: fmt.Sprintf("/.hidden%d", i), Info: fi(), Packager: tag()})
+			case 1:
+				cs = append(cs, wire.Content{Src: rng.Pick(r, t.Files), Dst: fmt.Sprintf("/.cache/app/x%d", i), Info: fi(), Packager: tag()})
+			case 2:
+				cs = append(cs, wire.Content{Dst: fmt.Sprintf("/.snapshots%d/", i), Type: "dir", Info: fi(), Packager: tag()})
+			default:
+				cs = append(cs, wire.Content{Src: "/.cache/app", Dst: fmt.Sprintf("/..latest%d", i), Type: "symlink", Packager: tag()})
+			}
 		case 10:
 			cs = append(cs, wire.Content{Src: rng.Pick(r, t.Files), Dst: fmt.Sprintf("/usr/share/doc/app/x%d", i), Type: rng.Pick(r, []string{"doc", "licence", "license", "readme"}), Info: fi()})
 		default:
